@@ -761,6 +761,112 @@ fn overlap_programs(thorough: bool, seed: u64) -> Vec<(String, String)> {
     v
 }
 
+// ------------------------------------------------------------------ the same families inside library packages
+//
+// Type names are RESOLVED per package (`Cell` written in package Lib is `Lib::Cell`), so every decision
+// that compares a written path with a type's constructor name has to be exercised outside `Main` too.
+
+const OVERLAP_LIB_NAMES: [&str; 6] = ["Cell", "Opt", "Pr", "mk", "idf", "first"];
+
+/// whole-identifier replacement `Name` -> `pkg::Name` for the library's top-level names
+fn qualify(text: &str, pkg: &str, names: &[&str]) -> String {
+    let cs: Vec<char> = text.chars().collect();
+    let mut out = String::new();
+    let mut i = 0;
+    let mut in_str = false;
+    while i < cs.len() {
+        if cs[i] == '"' {
+            in_str = !in_str;
+            out.push(cs[i]);
+            i += 1;
+        } else if !in_str && (cs[i].is_ascii_alphabetic() || cs[i] == '_') {
+            let mut j = i;
+            while j < cs.len() && (cs[j].is_ascii_alphanumeric() || cs[j] == '_') {
+                j += 1;
+            }
+            let w: String = cs[i..j].iter().collect();
+            let after_dot = out.trim_end().ends_with('.');
+            if names.contains(&w.as_str()) && !after_dot {
+                out.push_str(pkg);
+                out.push_str("::");
+            }
+            out.push_str(&w);
+            i = j;
+        } else {
+            out.push(cs[i]);
+            i += 1;
+        }
+    }
+    out
+}
+
+const MAIN_CALLS_RUN: &str = "package Main\nimport Lib\n\nfn main() -> unit { Lib::lib_entry() }\n";
+
+/// any single-package program, moved into package Lib as a whole (its `main` becomes `Lib::lib_entry`)
+fn whole_program_in_library(src: &str) -> Vec<(String, String)> {
+    vec![
+        ("Lib/lib.gom".to_string(), format!("package Lib\n\n{}", src.replace("fn main() -> unit", "fn lib_entry() -> unit"))),
+        ("main.gom".to_string(), MAIN_CALLS_RUN.to_string()),
+    ]
+}
+
+/// the three placements of an overlap program: (layout, files)
+fn overlap_layouts(body: &str) -> Vec<(&'static str, Vec<(String, String)>)> {
+    let run_body = body.replace("fn main() -> unit", "fn lib_entry() -> unit");
+    vec![
+        // type, impls and call sites in Lib (unqualified spellings), called from Main
+        ("all_in_lib", vec![
+            ("Lib/lib.gom".to_string(), format!("package Lib\n\n{}{}", OVERLAP_LIB, run_body)),
+            ("main.gom".to_string(), MAIN_CALLS_RUN.to_string()),
+        ]),
+        // type and impls in Lib, values and call sites in Main, written `Lib::Cell::m(x)`
+        ("calls_in_main", vec![
+            ("Lib/lib.gom".to_string(), format!("package Lib\n\n{}", OVERLAP_LIB)),
+            ("main.gom".to_string(), format!("package Main\nimport Lib\n\n{}", qualify(body, "Lib", &OVERLAP_LIB_NAMES))),
+        ]),
+        // type and impls in Base, call sites in Lib (which imports Base), written `Base::Cell::m(x)`
+        ("calls_in_other_library", vec![
+            ("Base/lib.gom".to_string(), format!("package Base\n\n{}", OVERLAP_LIB)),
+            ("Lib/lib.gom".to_string(), format!("package Lib\nimport Base\n\n{}", qualify(&run_body, "Base", &OVERLAP_LIB_NAMES))),
+            ("main.gom".to_string(), MAIN_CALLS_RUN.to_string()),
+        ]),
+    ]
+}
+
+fn compile_project(root: &std::path::Path, files: &[(String, String)]) -> (Outcome, String, String) {
+    let _ = std::fs::remove_dir_all(root);
+    let mut main_src = String::new();
+    for (rel, text) in files {
+        let p = root.join(rel);
+        let _ = std::fs::create_dir_all(p.parent().unwrap());
+        let _ = std::fs::write(&p, text);
+        if rel == "main.gom" {
+            main_src = text.clone();
+        }
+    }
+    let all: String = files.iter().map(|(r, t)| format!("// {}\n{}", r, t)).collect::<Vec<_>>().join("\n");
+    (util::compile_path(&root.join("main.gom"), &main_src), main_src, all)
+}
+
+fn emit_project(id: &str, root: &std::path::Path, files: &[(String, String)], out: &mut String) {
+    let (oc, main_src, all) = compile_project(root, files);
+    match oc {
+        Outcome::Ok(c) => {
+            let _ = writeln!(out, "{}\tEXPECT\tnone\t", id);
+            let _ = writeln!(out, "{}\tSRC\t{}", id, esc_line(&all));
+            crate::c01::dump_src(id, &root.join("main.gom"), &main_src, out);
+            let _ = writeln!(out, "{}\tSTAGE\tgo\t{}", id, crate::godump::gfile(&c.go).to_text());
+        }
+        Outcome::Err(stage, msgs) => {
+            let _ = writeln!(out, "{}\tREJECT\t{}\t{}\t{}", id, stage, esc_line(&msgs.join(" | ")), esc_line(&all));
+        }
+        Outcome::Panic(m) => {
+            let _ = writeln!(out, "{}\tPANIC\t{}\t{}", id, esc_line(&m), esc_line(&all));
+        }
+    }
+    let _ = std::fs::remove_dir_all(root);
+}
+
 pub fn main_sem(args: &util::Args) {
     util::quiet_panics();
     let _ = std::fs::create_dir_all(&args.out);
@@ -822,6 +928,37 @@ pub fn main_sem(args: &util::Args) {
     }
     let ovl = overlap_programs(args.tier == "thorough", args.seed);
     let n_ovl = ovl.len();
+    // … the same overlap programs placed in library packages (three layouts)
+    let mut n_pkg = 0usize;
+    for (id, src) in &ovl {
+        let Some(body) = src.strip_prefix(OVERLAP_LIB) else { continue };
+        let parts: Vec<&str> = id.splitn(3, '/').collect(); // sem / ovl_<scenario> / <ctx>/<form>
+        for (layout, files) in overlap_layouts(body) {
+            let pid = format!("sem/{}@{}/{}", parts[1], layout, parts[2]);
+            emit_project(&pid, &dir.join("proj"), &files, &mut out);
+            n += 1;
+            n_pkg += 1;
+        }
+    }
+    // … and the effect family (receiver × position × call form) with the whole program in package Lib
+    for r in recvs.iter() {
+        let wanted = args.tier == "thorough" || r.label == "struct_ref" || r.label == "dyn_loud_same_signatures";
+        if !wanted {
+            continue;
+        }
+        for (pi, pos) in POSITIONS.iter().enumerate() {
+            if args.tier != "thorough" && (pi + args.seed as usize) % 2 == 1 {
+                continue;
+            }
+            for f in FORMS {
+                let Some(src) = sem_program(r, pos, f) else { continue };
+                let pid = format!("sem/{}@all_in_lib/{}/{}", r.label, pos.0, f.id);
+                emit_project(&pid, &dir.join("proj"), &whole_program_in_library(&src), &mut out);
+                n += 1;
+                n_pkg += 1;
+            }
+        }
+    }
     for (id, src) in ovl {
         n += 1;
         match util::compile_text(&dir, &src) {
@@ -840,7 +977,7 @@ pub fn main_sem(args: &util::Args) {
         }
     }
     let _ = std::fs::remove_dir_all(&dir);
-    let _ = writeln!(out, "#FEATS\treceivers={} positions={} forms={} overlap_scenarios={} overlap_programs={} programs={}", recvs.len(), POSITIONS.len(), FORMS.len(), OVERLAP_SCENARIOS.len(), n_ovl, n);
+    let _ = writeln!(out, "#FEATS\treceivers={} positions={} forms={} overlap_scenarios={} overlap_programs={} in_library_packages={} programs={}", recvs.len(), POSITIONS.len(), FORMS.len(), OVERLAP_SCENARIOS.len(), n_ovl, n_pkg, n);
     std::fs::write(args.out.join("c17sem.cases.tsv"), out).expect("write");
     println!("c17sem programs={}", n);
 }
@@ -914,6 +1051,16 @@ pub fn main(args: &util::Args) {
             Outcome::Panic(m) => format!("panic:{}", m),
         };
         let _ = writeln!(out, "n{}\tNEG\t{}\t{}\t{}\t{}", id, nid, want, esc_line(&oc), esc_line(src));
+        id += 1;
+        // the same ill-formed program as a library package (its `main` becomes `Lib::lib_entry`)
+        let files = whole_program_in_library(src);
+        let (outcome, _, all) = compile_project(&base.join(format!("nl{}", id)), &files);
+        let oc = match outcome {
+            Outcome::Ok(_) => "ok".to_string(),
+            Outcome::Err(stage, msgs) => format!("err:{}:{}", stage, msgs.join(" | ")),
+            Outcome::Panic(m) => format!("panic:{}", m),
+        };
+        let _ = writeln!(out, "n{}\tNEG\t{}@lib\t{}\t{}\t{}", id, nid, want, esc_line(&oc), esc_line(&all));
         id += 1;
     }
     for (xid, src, wants) in EXTRAS {
